@@ -269,6 +269,9 @@ def check_c02(ctx):
         uses = set(d.get("uses", []))
         if d["pred"]["wellformed"] and "TIMER_REQ" in uses and not (uses - {"TIMER_REQ", "TIMER"}) & REINTERPRETED:
             conv_docs.append(dict(d, lacking=EXT_BITS["TIMER_REQ"], conv="bundled"))
+    # a range written with a blank-separated unit: without RANGE it is one text value whether ADVANCED_UNITS is on or not
+    for t in ["@flour{2-3 kg}\n", "Add @milk{1-2 cups} slowly\n", "@salt{1/2-1 tsp}\n", "@x{2-3 large}\n", "@y{ 1 - 2 g } and @z{1-2}\n"]:
+        conv_docs.append(dict(text=t, ext=[], conv="bundled", lacking=EXT_BITS["RANGE"], uses=["RANGE", "ADVANCED_UNITS"], src="range+unit"))
     pin = os.path.join(ctx.work, "sub_in.ndjson")
     pout = os.path.join(ctx.work, "sub_obs.ndjson")
     psum = os.path.join(ctx.work, "sub_sum.ndjson")
